@@ -12,7 +12,7 @@ From ClapModel Require Import Parse.Cmd Parse.Build Parse.Valid Parse.Matcher Pa
 From ClapModel Require ParseProofs.Chain ParseProofs.Globals ParseProofs.UnparseTree.
 From ClapModel Require Gen.ActionTables ParseProofs.TablesActions Gen.SettingsTables ParseProofs.TablesSettings.
 From ClapModel Require Gen.BuildTables ParseProofs.TablesBuild Derive.DeriveModel Complete.AotTree.
-From ClapModel Require Gen.GateSites ParseProofs.TablesGate.
+From ClapModel Require Gen.GateSites ParseProofs.TablesGate ParseProofs.TablesSettingsTree ParseProofs.Totality.
 From Coq Require Import ZArith.
 Open Scope N_scope.
 
@@ -956,3 +956,11 @@ Print Assumptions C07_assert_arg_flags_table.
 Theorem C07_app_flags_table : forall c, assert_app c = true -> TablesGate.tbl_app_flag_checks c = Some true.
 Proof. exact TablesGate.app_flags_table. Qed.
 Print Assumptions C07_app_flags_table.
+
+(** `args_override_self(true)` on the root of an unbuilt tree (class [Totality.plain]) is set at every level the parser
+    builds on its way down ([build_self], then [build_subcommand] repeatedly), to any depth *)
+Theorem C07_args_override_self_every_built_level : forall fuel x x',
+  TablesSettings.spec_apply TablesSettings.n_args_override_self x = Some x' -> Totality.plain x' = true ->
+  TablesSettingsTree.set_all s_args_override_self fuel (build_self x').
+Proof. exact TablesSettingsTree.args_override_self_every_built_level. Qed.
+Print Assumptions C07_args_override_self_every_built_level.
